@@ -392,6 +392,7 @@ const SCRIPTS: &[&str] = &[
     "PRINT -(-32767-1);ABS(-32767-1)",
     "10 FOR I=1 TO 140:PRINT STRING$(250,65);:NEXT\n20 PRINT TAB(5);1;TAB(255);POS(0),2;SPC(9);\nRUN\nPRINT TAB(3);POS(0)",
     "PRINT VAL(\"21.5°C\");VAL(\"€\");VAL(\" 1é\");VAL(\"é1\")",
+    "A%=-32767-1:PRINT A% MOD -1\nPRINT A%\\-1\nPRINT -32768! MOD -1#\nPRINT -32768.5 MOD -.5\nPRINT 1",
 ];
 
 fn gen_scripts(part: usize, parts: usize, _th: bool, emit: &mut dyn FnMut(&str)) {
